@@ -2,7 +2,7 @@
 
 C09-style scope trees (children inline / in ctx.spawn'ed tasks / in plain tasks) with `ctx.record` calls of four
 metric types placed before, between and after the children, in the scope's own task and in the spawned tasks
-(which record into the scope they inherited until they enter their own). Every record carries a unique id; the
+(which record into the scope they inherited until they enter their own). Every recorded object carries a unique id (now and then the very same instance is recorded again); the
 concatenating metric makes fold order and attribution directly visible. Merges: default (replace), sum,
 concatenate, raising. Gate scheduler enumerates the interleavings of the recording tasks.
 
@@ -46,7 +46,7 @@ ASSUMPTIONS = [
     "a record made after the landing scope's completion callback already ran is only required not to raise",
     "log-order of the harness (single thread) is the recording order",
 ]
-MINIMUMS = {"monitor:fold": 20000, "monitor:merged-view": 5000, "monitor:never-raises": 20000, "folds_of_3_or_more": 1000, "concurrent_recorders": 500, "records_outside_scope": 200, "records_after_completion": 50, "raising_merges": 500}
+MINIMUMS = {"same_instance_recorded_again": 300, "monitor:fold": 20000, "monitor:merged-view": 5000, "monitor:never-raises": 20000, "folds_of_3_or_more": 1000, "concurrent_recorders": 500, "records_outside_scope": 200, "records_after_completion": 50, "raising_merges": 500}
 JOBS = {"quick": 4, "thorough": 16}
 LEVEL_TEXT = (
     "Trees of up to 3 nodes (all shapes, kinds, placements) with seeded record layouts are run under every gate-release order (DFS, capped), 4-5 node trees sampled; inside each "
@@ -64,6 +64,7 @@ def build(tree: dict[str, Any], rng: random.Random) -> list[dict[str, Any]]:
     parents, kinds, places = tree["parents"], tree["kinds"], tree["places"]
     n = len(parents)
     rid = itertools.count(1)
+    made: list[tuple[str, int]] = []
     kids: dict[int, list[int]] = {i: [] for i in range(n)}
     for i in range(1, n):
         kids[parents[i]].append(i)
@@ -74,7 +75,13 @@ def build(tree: dict[str, Any], rng: random.Random) -> list[dict[str, Any]]:
             t = rng.choice(("Mx", "Mx", "Ms", "Mr", "Mf"))
             # now and then a raising merge is used on an ordinary type: the failing record must be dropped, nothing else
             merge = "raise" if rng.random() < 0.12 else MERGE_OF[t]
-            out.append({"op": "record", "type": t, "id": next(rid), "merge": merge})
+            step = {"op": "record", "type": t, "id": next(rid), "merge": merge}
+            earlier = [o for o in made if o[0] == t]
+            if earlier and rng.random() < 0.25:
+                step["obj"] = rng.choice(earlier)[1]  # the very same instance is recorded again (a shared constant metric)
+            else:
+                made.append((t, step["id"]))
+            out.append(step)
         return out
 
     def node(i: int) -> dict[str, Any]:
@@ -180,6 +187,16 @@ def view_fold(values: list[Any]) -> Any:
     return cur
 
 
+def _records(steps: list[dict[str, Any]]) -> list[dict[str, Any]]:
+    out: list[dict[str, Any]] = []
+    for s in steps:
+        if s["op"] == "record":
+            out.append(s)
+        elif s["op"] in ("block", "spawn"):
+            out.extend(_records(s["body"]))
+    return out
+
+
 def judge(R: Recorder, tree: dict[str, Any], prog: list[dict[str, Any]], chooser: Chooser, out: dict[str, Any]) -> None:
     W: World = out["W"]
     sched: Sched = out["sched"]
@@ -200,6 +217,7 @@ def judge(R: Recorder, tree: dict[str, Any], prog: list[dict[str, Any]], chooser
     raised = {e[1]: e[2] for e in ev if e[0] == "record-raised"}
     outside = late = raising = 0
     recorders: dict[str, set[str]] = {}
+    objs = {s["id"]: s.get("obj", s["id"]) for s in _records(prog)}
     for i, e in enumerate(ev):
         if e[0] != "record":
             continue
@@ -212,7 +230,9 @@ def judge(R: Recorder, tree: dict[str, Any], prog: list[dict[str, Any]], chooser
             late += 1
             where = "after-completion"
         else:
-            per[scope].append((rid, t, merge))
+            per[scope].append((objs.get(rid, rid), t, merge))  # the value carries the id of the recorded *object*
+            if objs.get(rid, rid) != rid:
+                R.count("same_instance_recorded_again")
         if merge == "raise":
             raising += 1
         R.monitor("never-raises", rid not in raised, where={**w0, "kind": "record-raised", "where": where, "merge": merge}, detail=f"ctx.record of {t}#{rid} ({where}, merge {merge}) raised {raised.get(rid)}", case=rec)
@@ -287,9 +307,12 @@ def judge(R: Recorder, tree: dict[str, Any], prog: list[dict[str, Any]], chooser
                 walk(s["body"], s["name"])
 
     walk(prog, "main")
+    task_of_obj: dict[int, set[str]] = {}
+    for rid_, task in task_of.items():
+        task_of_obj.setdefault(objs.get(rid_, rid_), set()).add(task)
     for name, rs in per.items():
         for t in ("Mx", "Ms"):
-            if len({task_of[r[0]] for r in rs if r[1] == t}) >= 2:
+            if len(set().union(*[task_of_obj.get(r[0], set()) for r in rs if r[1] == t] or [set()])) >= 2:
                 concurrent += 1
     del recorders
     R.case((prog, sched.key()), nontrivial=big > 0 or concurrent > 0)
